@@ -178,11 +178,11 @@ func main() {
 					res.NotExhaustive("time budget")
 					continue
 				}
-				runConfig(engine, pt, idx%2 == 0, set, isNative)
+				runConfig(engine, pt, idx%2 == 0, idx%3 == 1, set, isNative)
 			}
 		}
 	}
-	res.Info["grid"] = map[string]any{"native_types": native, "non_native_types": non, "types_used": pool, "endpoint_sets": len(sets), "passthrough": []bool{true, false}, "request_inspector": "off / on (alternating configurations)", "client_bodies": []string{"plain", "rich (other key order, white space, unknown members, tool definition, integer above 2^53)"},
+	res.Info["grid"] = map[string]any{"native_types": native, "non_native_types": non, "types_used": pool, "endpoint_sets": len(sets), "passthrough": []bool{true, false}, "request_inspector": "off / on (alternating configurations)", "max_message_size": "shipped value / 0 = unset (every third configuration)", "client_bodies": []string{"plain", "rich (other key order, white space, unknown members, tool definition, integer above 2^53)"},
 		"stream": []bool{false, true}, "faults": []string{"all fine", "preferred native refuses", "all natives refuse"}, "engines": []string{"sherpa", "olla"}}
 	res.Info["rule"] = "one evaluation = one request in one (engine, passthrough flag, endpoint set, fault, stream) cell; non-trivial = the endpoint set mixes native and non-native types or a native endpoint was made to fail; distinct = distinct (cell, mode header, receiving path) tuples"
 	res.Assume("native/non-native classification read from the shipped YAML via profile.Factory.GetAnthropicSupport at check time")
@@ -190,7 +190,7 @@ func main() {
 	res.Finish()
 }
 
-func runConfig(engine string, passthrough, inspector bool, set []string, isNative map[string]bool) {
+func runConfig(engine string, passthrough, inspector, zeroSize bool, set []string, isNative map[string]bool) {
 	var bes []*stack.Backend
 	var eps []stack.EP
 	for i, t := range set {
@@ -208,6 +208,9 @@ func runConfig(engine string, passthrough, inspector bool, set []string, isNativ
 	}()
 	o, err := stack.Boot(stack.Opts{Engine: engine, Balancer: "priority", Endpoints: eps, ModelDiscovery: true, Mutate: func(c *config.Config) {
 		c.Translators.Anthropic.PassthroughEnabled = passthrough
+		if zeroSize {
+			c.Translators.Anthropic.MaxMessageSize = 0 // "not set": the translator applies its default size
+		}
 		if inspector {
 			// the request inspector (off by default) logs requests and responses of the Anthropic route to a directory
 			c.Translators.Anthropic.Inspector = config.InspectorConfig{Enabled: true, OutputDir: inspectorDir(), SessionHeader: "X-Session-ID"}
@@ -260,7 +263,7 @@ func runConfig(engine string, passthrough, inspector bool, set []string, isNativ
 			var after transStats
 			var raw string
 			stack.Eventually(time.Second, func() bool { after, raw = readStats(o); return after.Total > before.Total })
-			cell := fmt.Sprintf("engine=%s passthrough_enabled=%v inspector=%v types=%v fault=%s stream=%v body=%s", engine, passthrough, inspector, set, fault, stream, map[bool]string{false: "plain", true: "rich"}[rich])
+			cell := fmt.Sprintf("engine=%s passthrough_enabled=%v inspector=%v max_message_size_unset=%v types=%v fault=%s stream=%v body=%s", engine, passthrough, inspector, zeroSize, set, fault, stream, map[bool]string{false: "plain", true: "rich"}[rich])
 			rp := map[string]any{"engine": "stack", "cell": cell}
 			wit := func(extra map[string]any) map[string]any {
 				w := map[string]any{"passthrough_enabled": passthrough, "inspector": inspector}
